@@ -17,9 +17,10 @@ CLAIMS["C09"] = {
     "design_ref": "DESIGN.md section 3, C09",
     "text": "Generated histories of every address-book operation, clock advances, GC runs and close/reopen are applied to the in-memory book, the datastore book "
             "(cache on/off, purge and lookahead GC) and a continuous-time reference model inside one synctest bubble; Addrs/GetPeerRecord/ConsumePeerRecord results must "
-            "agree exactly, PeersWithAddrs within one GC period and exactly at the end. Shrunk failures found on the pinned tree (six, all repaired by fix: commits) are replayed as witnesses. "
-            "Exploration: does not prove absence of further divergences.",
-    "note": "Clock steps are whole seconds; batches never name one address twice; per-peer caps disabled in the exact-oracle configuration; the datastore double applies each write atomically (crash = close/reopen).",
+            "agree exactly, PeersWithAddrs within one GC period and exactly at the end. A second property enables the per-peer cap (1-3) and compares both books with an exact model of the documented eviction rule "
+            "(nearest-expiry unconnected entry, connected entries exempt) over Add/Set/Update/remove batches; cases in which the rule leaves the victim open (equal expiries) are not compared further and counted. "
+            "Shrunk failures found on the pinned tree (eleven, all repaired by fix: commits) are replayed as witnesses. Exploration: does not prove absence of further divergences.",
+    "note": "Clock steps are whole seconds; per-peer caps are disabled in the full-history configuration and covered by the separate cap property (single peer, no signed records); the datastore double applies each write atomically (crash = close/reopen).",
 }
 
 CLAIMS["C03"] = {
@@ -190,4 +191,46 @@ CLAIMS["C13"] = {
             "closes within timeout + epsilon. 21 probe mutants detected in the quick tier. Exploration.",
     "note": "Network, connections and streams are fakes following the swarm's Connectedness and notification order; the peerstore is pstoremem, in some cases with a key book that trusts its caller and an enlarged protocol book; one speaking remote "
             "peer per case; no loopback remotes; same-instant events race under the Go scheduler and the oracle accepts every order.",
+}
+
+CLAIMS["C10"] = {
+    "technique": "property-based state-machine testing (rapid) against a reference model with write-fault and crash-point injection on a datastore double, composed with history audits of a real swarm, "
+                 "the real upgrader and the QUIC transport over scripted, in-memory and simnet substrates in synctest bubbles",
+    "design_ref": "DESIGN.md section 3, C10",
+    "text": "Generated Block/Unblock histories (peers, 4-/16-byte/IPv4-mapped IPs, v4/v6 subnets in every IPNet encoding, overlapping, /0 to /128, rarely non-prefix masks) are compared step by step with a model "
+            "of 'rules whose call returned success' while the datastore fails writes on demand and snapshots itself after every write: ListBlocked* and every Intercept* hook, for remotes in every address spelling "
+            "including subnet edges and IP-less addresses, on the live gater, on a gater reopened on every write's snapshot (must lie between the model before and after the call in flight) and on the final datastore (exact). "
+            "Outbound cases put the real gater into a real swarm over scripted transports with a fake DNS resolver and audit every transport dial, DialPeer result, ConnsToPeer and Connected notification "
+            "(no dial to a blocked peer or to any blocked post-resolution IP; positive controls). Inbound cases run the real upgrader (Noise/TLS, yamux) on an in-memory listener inside a real swarm "
+            "(address/subnet match: closed with zero bytes exchanged; blocked peer: closed after the handshake; never returned by Accept nor admitted). QUIC cases drive the QUIC transport's own gating call sites over simnet, "
+            "both directions. Two genuine defects in conngater were found, shrunk to witnesses and repaired. 24 of 24 probe mutants detected in the quick tier. Exploration.",
+    "note": "Trusted: go-multiaddr parsing, go-datastore MapDatastore and namespace wrapper, memnet, scripted transports, simnet, synctest. The datastore double applies or fails each write atomically; reads never fail. "
+            "WebTransport and WebRTC listener call sites are not driven. Unspecified and not asserted: an IPv6 subnet shorter than /96 covering IPv4-mapped remotes; relay-via-IP addresses whose relay IP is blocked.",
+}
+CLAIMS["C16"] = {
+    "technique": "property-based testing (rapid generators, shrinking, replay) over generated requests, dial-data streams, arrival schedules and same-instant races in synctest virtual time against the real AutoNAT v2 server "
+                 "between fake hosts, judged by an invariant oracle over the recorded history; thorough tier adds a native coverage-guided fuzz target and a -race pass",
+    "design_ref": "DESIGN.md section 3, C16",
+    "text": "For 20 000 (quick) / 1 000 000 (thorough) generated histories every dial-back attempt observed on the dialer host targeted the requesting peer and a public, dialable address byte-identical to one of its own "
+            "request entries; foreign-IP and DNS targets were dialled only after a DialDataRequest of 30-100 kB had been sent and at least that many dial-data bytes consumed (11 client dial-data behaviours: exact, short by k, "
+            "dribbled, oversized, garbage, early close, silence, fragmented...); requests with nothing eligible got E_DIAL_REFUSED and no dial; no sliding 60 s window exceeded the global, per-peer or dial-data limit "
+            "(arrival gaps incl. 60 s +- 1 ns) and no peer had more than the configured number of requests in service at any quiescence point. 40 probe mutants in server.go, autonat.go and msg_reader.go all detected in the quick tier. Exploration.",
+    "note": "Both hosts are doubles (real pstoremem and event bus; scripted Connect/NewStream/CanDial; null resource scopes): the real swarm, rcmgr and transports are not exercised. 'public' is manet.IsPublicAddr. "
+            "'Accepted' is 'not answered E_REQUEST_REJECTED' (may undercount; only upper bounds are asserted). Garbage and misaligned dial-data streams are credited at wire level. The server's own math/rand is not seedable, "
+            "so evidence counts vary slightly between runs while verdicts do not.",
+}
+
+CLAIMS["C12"] = {
+    "technique": "property-based schedule and protocol exploration (rapid) in synctest bubbles: a real swarm, a real BasicHost and a real holepunch.Service over scripted transports; generated connection timelines, "
+                 "caller option sets, cancel instants and DCUtR dialogues judged by validity predicates over the harness's own connection history plus a reference Connectedness model at every quiescence point",
+    "design_ref": "DESIGN.md section 3, C12",
+    "text": "Across ~30 k (quick) / ~1 M (thorough) generated schedules: a stream is returned on a Stat().Limited conn only to callers that passed WithAllowLimitedConn; callers certainly waiting for a direct connection "
+            "are released exactly when a non-limited conn appears (with a stream on it) or exactly at their context or dial-peer timeout (with an error), independently of other waiters' cancels; force-direct DialPeer/Connect "
+            "never yield a proxy-transport conn and relay addresses reach the proxy transport only on behalf of callers that did not demand a direct connection; Connectedness and EvtPeerConnectednessChanged distinguish "
+            "Limited from Connected; the hole punching service never answers DCUtR on a non-relayed conn, issues only force-direct Connect calls without relay addresses, never lets a relay address from ObsAddrs reach a transport, "
+            "sends CONNECT only over a relayed conn and returns nil from DirectConnect only with a direct conn in place. One genuine defect (initiator coordinating over a direct conn that arrived during the direct dial) was found, "
+            "shrunk to a witness and repaired. 21 probe mutants in swarm, basic host and holepunch detected in the quick tier. Exploration.",
+    "note": "Scripted transports, relays and identify responders stand in for real ones; Limited and Proxy flags are set by the harness (limited implies proxy). Events at the same virtual instant race for real and only callers "
+            "whose stage is certain from the recorded history get exact expectations. Dial orchestration itself is C05's subject. Flapping direct connections (closed in the instant they appear) are not judged; "
+            "the only-if direction (an allowed caller gets its limited stream) is not asserted.",
 }
